@@ -213,24 +213,40 @@ def event(i, ast, data, res, log=None, eager=None, mode='value'):
     return {'id': i, 'ast': tla_ast(ast), 'data': jv(data), 'res': res, 'log': log or [], 'eager': eager or [], 'mode': mode}
 
 
-def validate(rep, wd, events, label):
-    """-> (rejects [(id, clause)], skipped {clause: count})"""
+CHUNK = 20000
+
+
+def _validate_one(wd, events, label, k):
     import os
     from vf import tlc
-    path = os.path.join(wd, label.replace('/', '_') + '.ndjson')
+    path = os.path.join(wd, '%s.%d.ndjson' % (label.replace('/', '_'), k))
     with open(path, 'w') as f:
         for e in events:
             f.write(json.dumps(e, sort_keys=True) + '\n')
     cfg = 'SPECIFICATION TraceSpec\nPOSTCONDITION TraceAccepted\nCHECK_DEADLOCK FALSE\n'
-    r = tlc.run('Trace_Eval', cfg, wd, env={'TRACE_FILE': path}, workers=1, timeout=3000, heap='12g')
-    rep.tlc(label, r)
+    sub = os.path.join(wd, 'chunk%d' % k)
+    os.makedirs(sub, exist_ok=True)
+    r = tlc.run('Trace_Eval', cfg, sub, env={'TRACE_FILE': path}, workers=1, timeout=3000, heap='6g')
     if r.rc != 0 or r.distinct - 1 != len(events):
         raise tlc.TLCError('Trace_Eval: rc=%s consumed %d of %d\n%s' % (r.rc, r.distinct - 1, len(events), r.out[-3000:]))
-    rej = [(x[1], x[2]) for x in r.printed('REJECT')]
+    os.remove(path)
+    return r
+
+
+def validate(rep, wd, events, label):
+    """-> (rejects [(id, clause)], skipped {clause: count}); long traces are validated in chunks by parallel TLC processes
+    (the trace specification judges every event on its own, so the split does not change any verdict)"""
+    from concurrent.futures import ThreadPoolExecutor
+    chunks = [events[i:i + CHUNK] for i in range(0, len(events), CHUNK)] or [[]]
+    with ThreadPoolExecutor(max_workers=6) as ex:
+        results = list(ex.map(lambda kc: _validate_one(wd, kc[1], label, kc[0]), enumerate(chunks)))
+    rej = []
     skipped = {}
     skipped_ids = set()
-    for x in r.printed('SKIP'):
-        skipped[x[2]] = skipped.get(x[2], 0) + 1
-        skipped_ids.add(x[1])
-    os.remove(path)
+    for k, r in enumerate(results):
+        rep.tlc(label if len(chunks) == 1 else '%s [chunk %d/%d]' % (label, k + 1, len(chunks)), r)
+        rej.extend((x[1], x[2]) for x in r.printed('REJECT'))
+        for x in r.printed('SKIP'):
+            skipped[x[2]] = skipped.get(x[2], 0) + 1
+            skipped_ids.add(x[1])
     return rej, skipped, skipped_ids
